@@ -32,6 +32,9 @@ P = {
  "C14": dict(level="other", tech="abstract interpretation of the three trace renderers per opcode x M,X,E cell with formatter calls recorded as path-guarded render events: unchanged-state (mod-set) check, instruction bytes read vs Step's decoded length, operand-byte order per addressing mode, branch-destination term vs Step's target (gated terms restricted to the render path), dependence on stale register copies; SSA structural rules on RunUntil's logging region",
    text="Truthfulness clauses that are visible in the shape of the renderer (which bytes, which order, which register copy, which destination term, no side effect) are decided for every register/memory valuation of each cell; non-perturbation follows from the renderer's empty mod-set plus the structural confinement of Logger in RunUntil. Punctuation/spacing of the line and the cycles column are not checked.",
    note="Trusted: go/ssa, absint, ref/isa65816.json; xbuf.B and fmt append what they are given; Logger.Write (user code) does not touch the CPU.", ref="4 C14"),
+ "C18": dict(level="proof", tech="whole-module effect analysis: forward taint propagation over SSA def-use from the address of every package-level variable (mod-set of globals), parameter read-only summaries with CHA for interface calls, external-callee allowlist, import and go-statement scan",
+   text="The schedule quantifier is discharged by a whole-program absence-of-shared-writable-state argument: no function other than package initialisers can write any package-level variable or publish a reference to one, every external callee is stateless or internally synchronised, and no goroutines/sync/unsafe are used; instances with disjoint heaps then cannot interfere (Go memory model). Every function of the module is analysed, reachable or not.",
+   note="Trusted: go/ssa; completeness of the reference-derivation rules in tool/rules/effects.go; the standard-library allowlist; io.Writer contract; sentinel error values are immutable; buffers the caller shares between instances are the caller's responsibility.", ref="4 C18"),
 }
 reasons_pending = "no check is registered for this property at this commit (machinery not built yet); see DESIGN.md section 4 for the planned static rules"
 
